@@ -80,6 +80,10 @@ def o_collision_answers(h):
             return out
         is_ike = int(sa_p[0].proposals[0].protocol_id) == 1
         rekey = req.get_notifies(M.PayloadNOTIFY.Type.REKEY_SA, True)
+        if not 10 <= pre['state'] <= 17:
+            # CREATE_CHILD_SA is not admitted before IKE_AUTH has completed (nor in REKEYED / DELETED): the answer is the state
+            # machine's refusal, not one of the collision answers of RFC 7296 2.25 (o_allowed_steps and C08 judge that refusal)
+            return out
         TF, NF = int(M.PayloadNOTIFY.Type.TEMPORARY_FAILURE), int(M.PayloadNOTIFY.Type.CHILD_SA_NOT_FOUND)
         st = pre['state']
         if is_ike:
